@@ -15,5 +15,9 @@ func main() {
 		os.Exit(1)
 	}
 	props.Prepare(p)
+	if os.Args[2] == "-loops" {
+		props.DebugLoops(p)
+		return
+	}
 	props.DebugConv(p, os.Args[2])
 }
